@@ -64,7 +64,7 @@ class Contract:
                            types=dict(v.get("types", {})), cut=v.get("cut", False),
                            keep=set(v.get("keep", [])), unroll=v.get("unroll", False),
                            body_end=[Clause(c) for c in v.get("body_end", [])],
-                           head=list(v.get("head", [])),
+                           head=list(v.get("head", [])), abstract=v.get("abstract", False), cases=v.get("cases", False),
                            at_exit=[Clause(c) for c in v.get("at_exit", [])])
     self.total = g("total", False)          # implicit exceptions are obligations (C18)
     self.total_props = set(g("total_props", ["C18"]))
